@@ -113,37 +113,25 @@ theorem applyF_commit (d : Disk) (m : Meta) : applyF d (.commit m) = d.apply (.c
 theorem applyF_create (d : Disk) (id b : Nat) : applyF d (.create id b) = d.apply (.create id b) := rfl
 theorem applyF_fsync (d : Disk) (id : Nat) : applyF d (.fsync id) = d.apply (.fsync id) := rfl
 
-/-- deletions never fail the call: some of them are performed -/
-theorem runActs_deletes (wf : WriteFail) (ids : List Nat) (d : Disk) (k : Option Nat) :
-    ∃ (ids' : List Nat) (k' : Option Nat), (∀ j ∈ ids', j ∈ ids) ∧
-      runActs d wf (ids.map .delete) k = (d.applyAll (ids'.map .delete), none, k') := by
-  induction ids generalizing d k with
-  | nil => exact ⟨[], k, by simp, by simp [runActs]⟩
+/-- deletions never fail the call: some of them are performed (any number of them may fail) -/
+theorem runActs_deletes (ids : List Nat) (d : Disk) (pl : Plan) :
+    ∃ (ids' : List Nat) (pl' : Plan), (∀ j ∈ ids', j ∈ ids) ∧
+      runActs d (ids.map .delete) pl = (d.applyAll (ids'.map .delete), none, pl') := by
+  induction ids generalizing d pl with
+  | nil => exact ⟨[], pl, by simp, by simp [runActs]⟩
   | cons a l ih =>
-    cases k with
-    | none =>
-      obtain ⟨ids', k', h1, h2⟩ := ih (d.apply (.delete a)) none
-      refine ⟨a :: ids', k', ?_, ?_⟩
-      · intro j hj
-        simp only [List.mem_cons] at hj ⊢
-        rcases hj with rfl | hj
-        · exact Or.inl rfl
-        · exact Or.inr (h1 j hj)
-      · simp only [List.map_cons, runActs, applyF_delete, h2, applyAll_cons]
-    | some n =>
-      cases n with
-      | zero =>
-        obtain ⟨ids', k', h1, h2⟩ := ih d none
-        refine ⟨ids', k', fun j hj => by simp [h1 j hj], ?_⟩
-        simp only [List.map_cons, runActs, h2]
-      | succ n =>
-        obtain ⟨ids', k', h1, h2⟩ := ih (d.apply (.delete a)) (some n)
-        refine ⟨a :: ids', k', ?_, ?_⟩
-        · intro j hj
-          simp only [List.mem_cons] at hj ⊢
-          rcases hj with rfl | hj
-          · exact Or.inl rfl
-          · exact Or.inr (h1 j hj)
-        · simp only [List.map_cons, runActs, applyF_delete, h2, applyAll_cons]
+    have hcons : ∀ (ids' : List Nat), (∀ j ∈ ids', j ∈ l) → ∀ j ∈ a :: ids', j ∈ a :: l := by
+      intro ids' h1 j hj
+      simp only [List.mem_cons] at hj ⊢
+      rcases hj with rfl | hj
+      · exact Or.inl rfl
+      · exact Or.inr (h1 j hj)
+    rcases pl with _ | ⟨_ | wf, pl⟩
+    · obtain ⟨ids', pl', h1, h2⟩ := ih (d.apply (.delete a)) []
+      exact ⟨a :: ids', pl', hcons ids' h1, by simp only [List.map_cons, runActs, applyF_delete, h2, applyAll_cons]⟩
+    · obtain ⟨ids', pl', h1, h2⟩ := ih (d.apply (.delete a)) pl
+      exact ⟨a :: ids', pl', hcons ids' h1, by simp only [List.map_cons, runActs, applyF_delete, h2, applyAll_cons]⟩
+    · obtain ⟨ids', pl', h1, h2⟩ := ih d pl
+      exact ⟨ids', pl', fun j hj => by simp [h1 j hj], by simp only [List.map_cons, runActs, h2]⟩
 
 end RaftWal.Fault.C
